@@ -13,6 +13,9 @@ import PyGqlModel.Lemmas.PrintTokensDir
 import PyGqlModel.Lemmas.PrintLayExec
 import PyGqlModel.Lemmas.PrintMatchExec
 import PyGqlModel.Lemmas.PrintBlockLay
+import PyGqlModel.Lemmas.PrintStrip
+import PyGqlModel.Lemmas.PrintDocMatch
+import PyGqlModel.Lemmas.PrintBlockForms
 import PyGqlModel.Props.C01_parse
 namespace PyGql.Props.C03
 open PyGql PyGql.Ast PyGql.Parse PyGql.Spec PyGql.Print PyGql.PrintLex PyGql.PrintMatch PyGql.PrintTokens PyGql.Lex
@@ -151,24 +154,6 @@ def PrintParseStatement : Prop :=
     fl.noLocation = true → c.includeDescriptions = true → IndentOK c →
     lexAll x = .ok toks → parseDocument fl toks = .ok d →
     ∃ toks', lexAll (printDocument c d) = .ok toks' ∧ parseDocument fl toks' = .ok d
-
-/-- the descriptions the printer never prints (finding R4) removed -/
-def stripIV (d : InputValueDefinition) : InputValueDefinition := { d with description := none }
-def stripFD (d : FieldDefinition) : FieldDefinition :=
-  { d with description := none, arguments := d.arguments.map stripIV }
-def stripEV (d : EnumValueDefinition) : EnumValueDefinition := { d with description := none }
-def stripDef : Definition → Definition
-  | .objectTypeDefinition desc name ifs dirs fields loc => .objectTypeDefinition desc name ifs dirs (fields.map stripFD) loc
-  | .objectTypeExtension name ifs dirs fields loc => .objectTypeExtension name ifs dirs (fields.map stripFD) loc
-  | .interfaceTypeDefinition desc name dirs fields loc => .interfaceTypeDefinition desc name dirs (fields.map stripFD) loc
-  | .interfaceTypeExtension name dirs fields loc => .interfaceTypeExtension name dirs (fields.map stripFD) loc
-  | .enumTypeDefinition desc name dirs values loc => .enumTypeDefinition desc name dirs (values.map stripEV) loc
-  | .enumTypeExtension name dirs values loc => .enumTypeExtension name dirs (values.map stripEV) loc
-  | .inputObjectTypeDefinition desc name dirs fields loc => .inputObjectTypeDefinition desc name dirs (fields.map stripIV) loc
-  | .inputObjectTypeExtension name dirs fields loc => .inputObjectTypeExtension name dirs (fields.map stripIV) loc
-  | .directiveDefinition desc name args locations loc => .directiveDefinition desc name (args.map stripIV) locations loc
-  | d => d
-def stripMemberDescriptions (d : Document) : Document := { d with definitions := d.definitions.map stripDef }
 
 /-- THE STATEMENT MODULO MEMBER DESCRIPTIONS (what holds on today's code according to the correspondence and the direct
     oracle: every difference the oracle sees is a dropped member description) -/
@@ -370,23 +355,153 @@ theorem print_stable_of_modulo (h : PrintParseModuloMembersStatement) :
   obtain ⟨toks', a, b⟩ := h fl c x toks d h1 h2 h3 h4 h5
   exact ⟨toks', _, a, b, print_ignores_member_descriptions c d⟩
 
-/-- `print_parse_partial` — what is PROVED of `PrintParseModuloMembersStatement` / `PrintParseStatement`, for every
-    indentation configuration over {space, tab} and every flag combination with `no_location`:
-      (1) TYPES in full (`print_parse_type`);
-      (2) VALUES in full: all 9 kinds, nested lists / objects, variables, quoted strings with arbitrary content, integers
-          and floats by the specification recognisers (`print_parse_value`, `print_parse_value_spec`,
-          `float_lexeme_spec`); block strings through `BlockLay`, discharged for the multi-line form at every depth
-          (`block_lay_multiline`);
-      (3) EXECUTABLE DOCUMENTS in full (`print_parse_executable`, stated separately because it needs `IndentOK`):
-          operations (long form and shorthand), variable definitions, fields, aliases, arguments, directives, fragment
-          spreads, inline fragments, selection sets nested to any depth through `_block`/`_indent`, fragment
-          definitions (with fragment variables), the document loop.
-    MISSING: type-system definitions and extensions (the same `Lay` lemmas apply to `_with_desc`, `_block` of field /
-    enum-value / input-value definitions and the multi-line argument definitions; the matcher side needs the optional
-    separators `&?`, `|?` and the `[lookahead ≠ {]` items of the views, and the statement is modulo member descriptions,
-    finding R4), mixed documents where the R6 guard inserts `query`, the one-line block-string form and the empty block
-    string.  All of these are covered by the correspondence (exact strings, model = code) and the direct oracle of
-    corr/C03_print.py. -/
+/-! ### ALL documents, modulo member descriptions -/
+
+/-- `print_tokens_document`: for EVERY document — executable definitions, type-system definitions and extensions, mixed
+    — whose leaves are lexemes of their class (`okDefinition`), every indentation string over {space, tab}, descriptions
+    on: the printed document lexes to SOF, the token classes of its entries, EOF.  The classes of an entry are the
+    canonical yield of the definition WITHOUT member descriptions (finding R4: the printer does not print them), preceded by
+    the keyword `query` exactly where the R6 guard of `print_document` adds it. -/
+theorem print_tokens_document (c : Cfg) (hdesc : c.includeDescriptions = true) (hind : IndentOK c) (d : Document)
+    (hok : ∀ x ∈ d.definitions, okDefinition c.indent x) :
+    ∃ toks, lexAll (printDocument c d) = .ok (sofTok :: toks ++ [eofTok (printDocument c d).length]) ∧
+      classes toks = (entryPairs c none d.definitions).flatMap Prod.snd :=
+  lexAll_of_lexesTo (lexesTo_document c d (fun x hx => gfacts c hdesc hind x (hok x hx)))
+
+/-- `print_parse_document_modulo_members` (the statement of C03 modulo finding R4, for ALL documents):
+    `parse(print(d), no_location=True)` is `d` without the descriptions of fields, arguments, input fields and enum values
+    — for every well-formed, location-free document (operations, fragments, all 15 kinds of type-system definitions and
+    extensions, mixed documents including the query shorthand after a block-less definition: R6), every indentation
+    setting over {space, tab}, every flag combination with `no_location`.  Top-level descriptions, default values,
+    directives and every string content are preserved (block strings through `BlockLay` / `DescLay`). -/
+theorem print_parse_document_modulo_members (fl : Flags) (hnl : fl.noLocation = true) (c : Cfg)
+    (hdesc : c.includeDescriptions = true) (hind : IndentOK c) (d : Document)
+    (hok : ∀ x ∈ d.definitions, okDefinition c.indent x) (hn : noLocDocument d = true) (hw : wfDocument fl d = true) :
+    ∃ toks, lexAll (printDocument c d) = .ok toks ∧ parseDocument fl toks = .ok (stripMemberDescriptions d) := by
+  obtain ⟨toks, h1, h2⟩ := print_tokens_document c hdesc hind d hok
+  refine ⟨_, h1, ?_⟩
+  apply C01.parse_complete_document fl _ _ (by rw [wfDocument_strip]; exact hw)
+  exact matches_document fl hnl c d (fun x hx => gfacts c hdesc hind x (hok x hx)) hn sofTok (eofTok _) cls_sof (cls_eof _) toks h2
+
+/-- `print_stable_document` (all documents): printing the re-parsed tree reproduces the same text — the loss of member
+    descriptions (R4) is invisible to the printer (`print_ignores_member_descriptions`). -/
+theorem print_stable_document (fl : Flags) (hnl : fl.noLocation = true) (c : Cfg)
+    (hdesc : c.includeDescriptions = true) (hind : IndentOK c) (d : Document)
+    (hok : ∀ x ∈ d.definitions, okDefinition c.indent x) (hn : noLocDocument d = true) (hw : wfDocument fl d = true) :
+    ∃ toks d', lexAll (printDocument c d) = .ok toks ∧ parseDocument fl toks = .ok d' ∧
+      printDocument c d' = printDocument c d := by
+  obtain ⟨toks, h1, h2⟩ := print_parse_document_modulo_members fl hnl c hdesc hind d hok hn hw
+  exact ⟨toks, _, h1, h2, print_ignores_member_descriptions c d⟩
+
+/-- a document without member descriptions round-trips EXACTLY -/
+theorem print_parse_document_exact (fl : Flags) (hnl : fl.noLocation = true) (c : Cfg)
+    (hdesc : c.includeDescriptions = true) (hind : IndentOK c) (d : Document)
+    (hok : ∀ x ∈ d.definitions, okDefinition c.indent x) (hn : noLocDocument d = true) (hw : wfDocument fl d = true)
+    (hm : stripMemberDescriptions d = d) :
+    ∃ toks, lexAll (printDocument c d) = .ok toks ∧ parseDocument fl toks = .ok d := by
+  have := print_parse_document_modulo_members fl hnl c hdesc hind d hok hn hw
+  rwa [hm] at this
+
+/-! ### block strings: no hypothesis left -/
+
+/-- `block_lay_canon`: the hypotheses `BlockLay` (block-string values at any depth) and `DescLay` (block descriptions)
+    hold for EVERY canonical value (`CanonBlock`: empty, or lines of block-string characters without CR/LF, first and last
+    line not blank, smallest indentation 0 unless printed in the one-line form) — the multi-line form, the one-line form
+    `"""  x"""` (with the extra line feed after a trailing `"` or `\`: defect R3) and the empty string `"""⏎⏎"""`
+    (defect R1), under every indentation string over {space, tab} and every enclosing `_indent`. -/
+theorem block_lay_canon (ind : Text) (hind : ∀ ch ∈ ind, ch = 32 ∨ ch = 9) (v : Text) (h : CanonBlock v) :
+    BlockLay ind v ∧ DescLay ind v :=
+  ⟨blockLay_canon ind hind v h, descLay_canon ind v h⟩
+
+/-- `print_parse_value_full`: `parse_value(print(v), no_location=True) = v` for EVERY value whose leaves satisfy the
+    specification (`specValue`: names / integers / floats by the lexical recognisers, quoted strings arbitrary, block
+    strings canonical) — no hypothesis about the lexer or the printer is left. -/
+theorem print_parse_value_full (fl : Flags) (hnl : fl.noLocation = true) (c : Cfg) (hind : IndentOK c) (v : Value)
+    (hs : specValue v) (hn : noLocValue v = true) (hw : wfValue false v = true) :
+    ∃ toks, lexAll (printValue c v) = .ok toks ∧ parseValue fl toks = .ok v :=
+  print_parse_value_spec fl hnl c v (okValue_of_spec c.indent hind v hs) hn hw
+
+/-- non-vacuity: `[""" x"""", """""", """a⏎ b"""]` — one-line form ending in a quote, empty, multi-line -/
+example : ∃ toks, lexAll (printValue (mkCfg (.width 2))
+      (.list [.string ⟨[32, 120, 34], true, none⟩, .string ⟨[], true, none⟩, .string ⟨[97, 10, 32, 98], true, none⟩] none)) = .ok toks ∧
+    parseValue { noLocation := true } toks =
+      .ok (.list [.string ⟨[32, 120, 34], true, none⟩, .string ⟨[], true, none⟩, .string ⟨[97, 10, 32, 98], true, none⟩] none) := by
+  refine print_parse_value_full _ rfl _ (by intro ch hc; simp [mkCfg] at hc; exact Or.inl hc) _ ?_ (by decide) (by decide)
+  simp only [specValue, specValues, and_true]
+  refine ⟨fun _ => Or.inr ⟨[32, 120, 34], [], rfl, ?_, by decide, by decide, by decide, by decide⟩, fun _ => Or.inl rfl,
+    fun _ => Or.inr ⟨[97], [[32, 98]], rfl, ?_, by decide, by decide, by decide, fun _ => by decide⟩⟩
+  · intro x hx; simp at hx; subst hx; intro ch hc; simp at hc; omega
+  · intro x hx; simp at hx; rcases hx with rfl | rfl <;> (intro ch hc; simp at hc; omega)
+
+/-- non-vacuity of `print_parse_document_modulo_members`: a MIXED document with a quoted top-level description, a
+    member description that is lost (R4), `implements A & B`, a union, an argument default, and the query shorthand
+    after a block-less type definition (R6 guard):
+    `"d" type T implements A & B @x  { q }  enum E { "m" V }  union U = A | B  extend type T { f(a: Int = 1): [T!] }` -/
+private def nm' (s : String) : Name := ⟨textOfString s, none⟩
+private def exMixed : Document :=
+  ⟨[.objectTypeDefinition (some ⟨[100], false, none⟩) (nm' "T") [⟨nm' "A", none⟩, ⟨nm' "B", none⟩] [⟨nm' "x", [], none⟩] [] none,
+    .operation ⟨K.query, none, [], [], .mk [.field none (nm' "q") [] [] none none] none, none⟩,
+    .enumTypeDefinition none (nm' "E") [] [⟨some ⟨[109], false, none⟩, nm' "V", [], none⟩] none,
+    .unionTypeDefinition none (nm' "U") [] [⟨nm' "A", none⟩, ⟨nm' "B", none⟩] none,
+    .objectTypeExtension (nm' "T") [] []
+      [⟨none, nm' "f", [⟨none, nm' "a", .named ⟨nm' "Int", none⟩, some (.int [49] none), [], none⟩],
+        .list (.nonNull (.named ⟨nm' "T", none⟩) none) none, [], none⟩] none], none⟩
+
+example : ∃ toks, lexAll (printDocument (mkCfg (.width 2)) exMixed) = .ok toks ∧
+    parseDocument { noLocation := true, allowTypeSystem := true } toks = .ok (stripMemberDescriptions exMixed) := by
+  refine print_parse_document_modulo_members _ rfl _ rfl (by intro ch hc; simp [mkCfg] at hc; exact Or.inl hc) exMixed ?_
+    (by decide) (by decide)
+  intro x hx
+  simp only [exMixed, List.mem_cons, List.not_mem_nil, or_false] at hx
+  rcases hx with rfl | rfl | rfl | rfl | rfl <;>
+    simp only [okDefinition, isExecDef, ↓reduceIte, Bool.false_eq_true, okTSDefinition, okExecDefinition, okOperation, okDesc,
+      okNamedTypes, okDirectives, okDirective, okArguments, okMembers, okFieldDef, okEnumValue, okInputValues, okInputValue,
+      okVarDefs, okSelectionSet, okSelections, okSelection, okOptSelectionSet, okValue, lexOkType, nm',
+      List.mem_cons, forall_eq_or_imp, List.not_mem_nil, false_imp_iff, implies_true, and_true] <;>
+    (repeat' apply And.intro) <;> first | decide | simp
+set_option maxRecDepth 8000 in
+/-- the printed text of the mixed document: the description is kept in its quoted form (R5), `query` is added (R6),
+    the enum value's description is gone (R4) -/
+example : printDocument (mkCfg (.width 2)) exMixed = textOfString
+    "\"d\"\ntype T implements A & B @x\n\nquery {\n  q\n}\n\nenum E {\n  V\n}\n\nunion U = A | B\n\nextend type T {\n  f(a: Int = 1): [T!]\n}\n" := by
+  decide
+
+/-- THE BRIDGE between trees and texts: every tree the parser returns for a lexed text (under `no_location`) has leaves
+    that are lexemes of their class — names / numbers by `lex_sound`, block strings canonical (the range of
+    `BlockStringValue`) — and carries no positions.  This is a statement about the LEXER and the PARSER only (C01/C02); it
+    is exercised on every accepted document of the correspondence, and is the ONLY thing missing for the text-level
+    statement. -/
+def ParserOutputOK : Prop :=
+  ∀ (fl : Flags) (c : Cfg) (x : Text) (toks : List Tok) (d : Document), fl.noLocation = true → IndentOK c →
+    lexAll x = .ok toks → parseDocument fl toks = .ok d →
+    (∀ y ∈ d.definitions, okDefinition c.indent y) ∧ noLocDocument d = true
+
+/-- `print_parse_modulo_members_of_bridge`: `PrintParseModuloMembersStatement` (the text-level statement of C03 modulo
+    finding R4) FOLLOWS from `print_parse_document_modulo_members` + `parse_sound_document` (C01) + the bridge. -/
+theorem print_parse_modulo_members_of_bridge (hb : ParserOutputOK) : PrintParseModuloMembersStatement := by
+  intro fl c x toks d hnl hdesc hind hlex hparse
+  obtain ⟨hok, hn⟩ := hb fl c x toks d hnl hind hlex hparse
+  have hw := (C01.parse_sound_document fl toks d hparse).1
+  exact print_parse_document_modulo_members fl hnl c hdesc hind d hok hn hw
+
+/-- … and so does `PrintStableStatement` for descriptions on -/
+theorem print_stable_of_bridge (hb : ParserOutputOK) :
+    ∀ (fl : Flags) (c : Cfg) (x : Text) (toks : List Tok) (d : Document),
+      fl.noLocation = true → c.includeDescriptions = true → IndentOK c → lexAll x = .ok toks → parseDocument fl toks = .ok d →
+      ∃ toks' d', lexAll (printDocument c d) = .ok toks' ∧ parseDocument fl toks' = .ok d' ∧
+        printDocument c d' = printDocument c d :=
+  print_stable_of_modulo (print_parse_modulo_members_of_bridge hb)
+
+/-- `print_parse_partial` — SUPERSEDED summary (kept because the name is registered).  At TREE level everything is now
+    proved, for every indentation configuration over {space, tab} and every flag combination with `no_location`:
+      types (`print_parse_type`), values without any block-string hypothesis (`print_parse_value_full`, `block_lay_canon`),
+      executable documents (`print_parse_executable`), ALL documents modulo member descriptions
+      (`print_parse_document_modulo_members`, exact when there are none: `print_parse_document_exact`), stability
+      (`print_stable_document`), the refutation of the unrestricted statement (`print_parse_refuted`, R4).
+    NOT proved: the bridge `ParserOutputOK` from texts to trees (lexer/parser output satisfies the leaf conditions; needs
+    `lex_sound` per token and the characterisation of the range of `BlockStringValue`), from which the text-level
+    `PrintParseModuloMembersStatement` follows (`print_parse_modulo_members_of_bridge`); documents printed with
+    `include_descriptions=False` (not part of the statement).  The conjunction below is the original partial result. -/
 theorem print_parse_partial (fl : Flags) (hnl : fl.noLocation = true) (c : Cfg) :
     (∀ t, lexOkType t = true → noLocType t = true → wfType t = true →
       ∃ toks, lexAll (printType t) = .ok toks ∧ parseType fl toks = .ok t) ∧
